@@ -217,7 +217,7 @@ func c09dispatch(c *an.Ctx) {
 					sent, closed := false, false
 					q2 := &an.PathQ{Fn: handle, StartEdges: []an.Edge{t.False}, Sink: an.IsReturn, Cut: func(in ssa.Instruction, _ *an.PathState) bool {
 						if ci, ok := in.(ssa.CallInstruction); ok {
-							if f := an.StaticCallee(ci); f != nil && f.Name() == "SendFramedResponse" {
+							if f := an.StaticCallee(ci); f != nil && an.BaseName(f) == "SendFramedResponse" {
 								for _, a := range ci.Common().Args {
 									if s, ok := an.ConstString(an.Strip(a)); ok && s == "E_BAD_PROTOCOL" {
 										sent = true
@@ -322,7 +322,7 @@ func wireOrigin(c *an.Ctx, v ssa.Value) (ssa.Value, bool) {
 		switch x := o.(type) {
 		case *ssa.Extract:
 			if call, ok := x.Tuple.(*ssa.Call); ok {
-				if f := an.StaticCallee(call); f != nil && f.Name() == "readLen" {
+				if f := an.StaticCallee(call); f != nil && an.BaseName(f) == "readLen" {
 					q = x
 				}
 			}
@@ -429,7 +429,7 @@ func wireLenCheck(c *an.Ctx, fns []*ssa.Function) int {
 func c09wirelen(c *an.Ctx) {
 	var fns []*ssa.Function
 	for _, fn := range c.P.PkgFuncs("nsqd") {
-		if fn.Name() == "readResponseBounded" {
+		if an.BaseName(fn) == "readResponseBounded" {
 			continue // reads nsqlookupd's replies, not client input: decided by C16.bounded
 		}
 		fns = append(fns, fn)
